@@ -161,7 +161,7 @@ def history(draw):
         choices = ["create", "append", "iadd_list", "iadd_cont"]
         if attrs:
             choices += ["set", "set", "set", "get", "set_oob", "get_oob", "inplace", "inplace_idx", "clear_attr", "as_array",
-                        "delete", "set", "append", "copy_entry", "copy_entry", "set_array", "as_array"]
+                        "delete", "set", "append", "copy_entry", "copy_entry", "set_array", "as_array", "set_twice", "set_twice"]
         if draw(st.integers(0, 30)) == 0:
             choices = ["clear_container"]
         op = draw(st.sampled_from(choices))
@@ -200,6 +200,18 @@ def history(draw):
                         ["list", [[z[0], draw(st.integers(-9, 9))] if typ == "int" else [z[0], draw(st.integers(-9, 9)) / 2] for _ in range(arity)]]
                 ops.append([op, name, draw(st.integers(0, max(n - 1, 0))), draw(st.integers(0, 3)), draw(st.integers(1, 5)),
                             draw(value_desc(typ, arity).filter(lambda vd: model_accepts(vd, typ, arity))), pre])
+            elif op == "set_twice":
+                # two accepted writes at the same index, the first one given in a narrower class (bool / int) than the second
+                i2 = draw(st.integers(0, max(n - 1, 0)))
+                if arity > 1 and typ in ("int", "float", "str", "complex"):
+                    narrow = {"int": ["pybool", True], "float": ["pyint", 3], "complex": ["pycomplex", [1.0, 0.0]], "str": ["str", "a"]}[typ]
+                    wide = {"int": ["pyint", 70000], "float": ["pyfloat", 0.25], "complex": ["pycomplex", [0.5, -2.5]], "str": ["str", "hello w"]}[typ]
+                    ops.append(["set", name, i2, ["list", [list(narrow) for _ in range(arity)]]])
+                    ops.append(["set", name, i2, ["list", [list(wide) for _ in range(arity)]]])
+                else:
+                    ops.append(["set", name, i2, draw(value_desc(typ, arity).filter(lambda vd: model_accepts(vd, typ, arity)))])
+                    ops.append(["set", name, i2, draw(value_desc(typ, arity).filter(lambda vd: model_accepts(vd, typ, arity)))])
+                ops.append(["as_array", name])
             elif op == "copy_entry":
                 # a[j] = a[i] (a value obtained by reading), then the value read back from j is changed in place
                 ops.append(["copy_entry", name, draw(st.integers(0, max(n - 1, 0))), draw(st.integers(0, max(n - 1, 0))), draw(st.integers(0, 3)), draw(st.integers(1, 5)),
